@@ -36,6 +36,11 @@ pub fn quote(s: &str, out: &mut String) {
             '\n' => out.push_str("\\n"),
             '\t' => out.push_str("\\t"),
             '\r' => out.push_str("\\r"),
+            // anything a line-oriented reader (Python's `splitlines`) could take for a line break, and other
+            // control characters, travel as `\u{HEX}` (read back by lean/Selene/Sexp.lean)
+            c if (c as u32) < 0x20 || c == '\u{7f}' || c == '\u{85}' || c == '\u{2028}' || c == '\u{2029}' => {
+                out.push_str(&format!("\\u{{{:x}}}", c as u32))
+            }
             c => out.push(c),
         }
     }
